@@ -124,6 +124,97 @@ theorem C05_machine_reset_leaves_slots {s : State} (h : Reachable s) :
   unfold State.getRet
   rw [← hk]
 
+theorem getRet_setRet_ne (s : State) (c c' : Nat) (r : Ret) (h : c' ≠ c) : (s.setRet c r).getRet c' = s.getRet c' := by
+  unfold State.getRet State.setRet
+  simp only
+  induction s.calls with
+  | nil => rfl
+  | cons e l ih =>
+    by_cases he : e.1 = c
+    · have hb : (e.1 == c) = true := by simpa using he
+      have hb' : (e.1 == c') = false := by simp [he]; exact fun e' => h e'.symm
+      simp only [List.map_cons, hb, if_true, List.find?_cons, hb']
+      exact ih
+    · have hb : (e.1 == c) = false := by simpa using he
+      simp only [List.map_cons, hb, Bool.false_eq_true, if_false, List.find?_cons]
+      split
+      · rfl
+      · exact ih
+
+theorem find_setRet_self (c : Nat) (r : Ret) : ∀ (l : List (Nat × Ret)),
+    ((l.find? (·.1 == c)).map (·.2)).getD .none ≠ .none →
+    (((l.map (fun e => if e.1 == c then (e.1, r) else e)).find? (·.1 == c)).map (·.2)).getD .none = r
+  | [], h => absurd rfl h
+  | e :: l, h => by
+    by_cases he : e.1 = c
+    · have hb : (e.1 == c) = true := by simpa using he
+      simp only [List.map_cons, hb, if_true, List.find?_cons]
+      rfl
+    · have hb : (e.1 == c) = false := by simpa using he
+      simp only [List.map_cons, hb, Bool.false_eq_true, if_false, List.find?_cons] at h ⊢
+      exact find_setRet_self c r l h
+
+theorem getRet_setRet_self (s : State) (c : Nat) (r : Ret) (h : s.getRet c ≠ .none) : (s.setRet c r).getRet c = r :=
+  find_setRet_self c r s.calls h
+
+/-- the value an `end` hands to the host -/
+def endValue (th : Th) : EndV → Option V
+  | .none => none
+  | .lit n => some (.int n)
+  | .param i => match th.params.getD i .nil with | .nil => none | x => some x
+
+/-- **What `end` does to the host's slot, machine level.**  `end v` executed by a thread whose VM shares the
+    result cell of host call `c` (any fuel, any state with the structural invariant): the whole instruction —
+    result into the cell, `delete thread` with all its cascades — changes the slots exactly as follows: slot
+    `c`, if still open (inside the host call), gets the value, or nothing for a plain `end` / NIL; if pending
+    (the host call returned while the thread was suspended) it gets the value, or `nil`; every other slot is
+    untouched.  A thread without a link changes no slot. -/
+theorem C05_machine_end_writes_slot (fuel : Nat) {s : State} (hn : NInv s) (t : Nat) (th : Th) (ev : EndV) :
+    (∀ c, th.call = some c →
+      (s.getRet c = .open_ → (exec (fuel + 1) s t th (.end_ ev)).getRet c =
+          (match endValue th ev with | some x => .val x | none => .none)) ∧
+      (s.getRet c = .pending → (exec (fuel + 1) s t th (.end_ ev)).getRet c =
+          (match endValue th ev with | some x => .val x | none => .nil)) ∧
+      (∀ c', c' ≠ c → (exec (fuel + 1) s t th (.end_ ev)).getRet c' = s.getRet c')) ∧
+    (th.call = none → ∀ c', (exec (fuel + 1) s t th (.end_ ev)).getRet c' = s.getRet c') := by
+  have hcalls : (exec (fuel + 1) s t th (.end_ ev)).calls = (endResult s th ev).calls := by
+    rw [exec_end]
+    exact (cqAll fuel).dt [] _ t ((endResult_ninv hn th ev).setTh t _)
+  have hget : ∀ c', (exec (fuel + 1) s t th (.end_ ev)).getRet c' = (endResult s th ev).getRet c' := by
+    intro c'; unfold State.getRet; rw [hcalls]
+  have hE : endResult s th ev = (match th.call with
+      | none => s
+      | some c =>
+        match s.getRet c, endValue th ev with
+        | .open_, some x => s.setRet c (.val x)
+        | .open_, none => s.setRet c .none
+        | .pending, some x => s.setRet c (.val x)
+        | .pending, none => s.setRet c .nil
+        | _, _ => s) := by
+    unfold endResult endValue; cases ev <;> rfl
+  constructor
+  · intro c hc
+    refine ⟨?_, ?_, ?_⟩
+    · intro ho
+      rw [hget, hE]
+      simp only [hc, ho]
+      cases endValue th ev with
+      | none => exact getRet_setRet_self s c _ (by rw [ho]; simp)
+      | some x => exact getRet_setRet_self s c _ (by rw [ho]; simp)
+    · intro ho
+      rw [hget, hE]
+      simp only [hc, ho]
+      cases endValue th ev with
+      | none => exact getRet_setRet_self s c _ (by rw [ho]; simp)
+      | some x => exact getRet_setRet_self s c _ (by rw [ho]; simp)
+    · intro c' hne
+      rw [hget, hE]
+      simp only [hc]
+      split <;> first | exact getRet_setRet_ne s c c' _ hne | rfl
+  · intro hc c'
+    rw [hget, hE]
+    simp only [hc]
+
 /-! non-vacuity: synchronous result, pending result -/
 example : ((hostCall (hostScript {} [[.end_ (.lit 7)]] [0]) 0 []).1.getRet 1) = .val (.int 7) := by decide +kernel
 example : ((hostCall (hostScript {} [[.wait 5, .end_ (.lit 7)]] [0]) 0 []).1.getRet 1) = .pending := by decide +kernel
